@@ -216,7 +216,18 @@ fn cell_index(c: Cell) -> usize {
 }
 
 fn execute(dir: &Path, layout: &Metablock) -> Verdict {
-    world::verify(layout, world::owner_map(&[keys::get("ed6")]), dir)
+    // the requested summary name is a public parameter that must not matter: alternate it
+    thread_local!(static FLIP: std::cell::Cell<u8> = const { std::cell::Cell::new(0) });
+    let n = FLIP.with(|f| {
+        f.set(f.get().wrapping_add(1));
+        f.get()
+    });
+    let name = match n % 3 {
+        0 => None,
+        1 => Some("final-product"),
+        _ => Some(""),
+    };
+    world::verify_named(layout, world::owner_map(&[keys::get("ed6")]), dir, name)
 }
 
 fn reasons(spec: &LayoutSpec, st: &State) -> String {
@@ -546,6 +557,29 @@ fn extra_legs(acc: &mut Acc) {
     // ---- (3) one key under two ids: A (hash-algorithm list [sha256, sha512]) and A2 (the same
     // material, no list) are both in the key table and both authorised; A's link exists once under
     // each id (the second is a copy with the key id replaced - nobody needs the private key for that)
+    // the same with an RSA functionary declared with both PSS digests; here the key holder signs twice
+    {
+        let (r1, r2) = (keys::get("rsa256a"), keys::get("rsa512a"));
+        for thr in [2u32, 1] {
+            clear(&dir);
+            world::write(&dir, &world::link_file("s0", r1), &world::block_text(&world::sign_link(base_link("s0"), &[r1])));
+            world::write(&dir, &world::link_file("s0", r2), &world::block_text(&world::sign_link(base_link("s0"), &[r2])));
+            let lay = world::sign_layout(world::layout(vec![world::step("s0", thr, &[r1, r2])], vec![], &[r1, r2], world::far_future()), &[owner]);
+            let must_reject = 1 < thr;
+            acc.evaluations += 1;
+            acc.traces += 1;
+            acc.nontrivial += 1;
+            acc.states += 1;
+            let v = world::verify(&lay, world::owner_map(&[owner]), &dir);
+            acc.outcome(&format!("impl-{}/model-{}", v.tag(), if must_reject { "reject" } else { "accept" }));
+            let w = || json!({"kind": "one-key-two-ids", "pubkeys": ["R (rsassa-pss-sha256)", "R2 (the same modulus, rsassa-pss-sha512)"], "links_present": ["R", "R2"], "threshold": thr});
+            match &v {
+                Verdict::Ok(_) if must_reject => acc.violation("counted:one-key-under-two-ids", "one RSA functionary key that the layout lists under both PSS digests counted twice towards the threshold of a step", w),
+                Verdict::Panic(l, m) => acc.violation(&format!("panic:{l}"), &format!("verification panicked at {l}: {m}"), w),
+                _ => {}
+            }
+        }
+    }
     let a2 = PublicKey::from_ed25519(a.public().as_bytes().to_vec()).expect("guise");
     let a2_id = id_of(&a2);
     for (with_b, thr) in [(false, 2u32), (true, 3), (true, 2), (false, 1)] {
